@@ -35,6 +35,8 @@ type vpTransport struct {
 	stallWrites bool
 	drainFails  bool
 	corrupted   int
+	beforeEOF   func()
+	clientGone  bool // DATA writes to this connection block until it is closed (a client that stopped reading)
 	isWS        bool // handed out by the NewWS stub: one ReadPacket = one websocket message
 }
 
@@ -52,6 +54,9 @@ func (t *vpTransport) ReadPacket() (int, []byte, error) {
 		return len(p), p, nil
 	}
 	if t.pos >= len(t.in) {
+		if t.beforeEOF != nil {
+			t.beforeEOF() // the client drops only after this (e.g. after the host stream was relayed)
+		}
 		return 0, []byte{0, 0}, io.EOF
 	}
 	p := t.in[t.pos]
@@ -65,6 +70,22 @@ func (t *vpTransport) ReadPacket() (int, []byte, error) {
 func (t *vpTransport) WritePacket(b []byte) (int, error) {
 	c := make([]byte, len(b))
 	copy(c, b)
+	if t.clientGone && len(b) >= 2 && b[0] == 0xA && b[1] == 0 {
+		// the client no longer drains this connection: a DATA write blocks until the connection is
+		// closed (by the gateway, or by the operating system once the peer is gone for good)
+		for i := 0; ; i++ {
+			vpMu.Lock()
+			cl := t.closed
+			vpMu.Unlock()
+			if cl {
+				return 0, errors.New("vp: write on a closed connection")
+			}
+			if !vpSymbolic() && i > 3000 {
+				vpBlockForever()
+			}
+			vpWaitProgress()
+		}
+	}
 	if t.stallWrites {
 		// a slow client: the write is in flight while the tunnel's other goroutines run
 		vpRunTasks()
@@ -77,8 +98,10 @@ func (t *vpTransport) WritePacket(b []byte) (int, error) {
 }
 
 func (t *vpTransport) Close() error {
+	vpMu.Lock()
 	t.closed = true
 	t.ncloses++
+	vpMu.Unlock()
 	return nil
 }
 
